@@ -2,5 +2,7 @@
 import DnaModel.Gen.Tables
 import DnaModel.Model.Seq
 import DnaModel.Model.Loc
+import DnaModel.Model.Pattern
 import DnaModel.Props.C18
 import DnaModel.Props.C19
+import DnaModel.Props.C11
